@@ -14,10 +14,27 @@ pub enum WOp {
     Persist(Mode),
     /// journal rotation (`Writer::rotate` through the verif hook): seals the active journal
     RotateJournal,
+    /// a write transaction (single-writer or optimistic database, see `Workload::flavour`) on one
+    /// keyspace, items in key order, committed with an explicit durability level or the default
+    Tx(Option<Mode>, usize, Vec<(Vec<u8>, Option<Vec<u8>>)>),
 }
 
 #[derive(Clone, Debug)]
-pub struct Workload { pub manual: bool, pub lz4: bool, pub nks: usize, pub ops: Vec<WOp> }
+pub struct Workload { pub manual: bool, pub lz4: bool, pub nks: usize, pub ops: Vec<WOp>,
+    /// 0 = plain `Database`, 1 = `SingleWriterTxDatabase`, 2 = `OptimisticTxDatabase` (plain operations go through `inner()`)
+    pub flavour: u8 }
+
+impl Workload {
+    /// the workload as the journal sees it: a transaction commit is one batch with the effective
+    /// durability (explicit level, else `Buffer` unless manual journal persist is on)
+    pub fn modelled(&self) -> Workload {
+        let ops = self.ops.iter().map(|o| match o {
+            WOp::Tx(dur, k, items) => WOp::Batch(dur.clone().or(if self.manual { None } else { Some(Mode::Buffer) }), items.iter().map(|(key, v)| (*k, key.clone(), v.clone())).collect()),
+            o => o.clone(),
+        }).collect();
+        Workload { manual: self.manual, lz4: self.lz4, nks: self.nks, ops, flavour: self.flavour }
+    }
+}
 
 fn key(r: &mut Rng) -> Vec<u8> { vec![b'k', b'0' + r.below(6) as u8] }
 fn val(r: &mut Rng) -> Vec<u8> {
@@ -40,6 +57,7 @@ pub fn gen_with(seed: u64, rotations: bool) -> Workload {
     let n = r.range(3, 14);
     let manual = r.chance(1, 3);
     let lz4 = r.chance(1, 2);
+    let flavour = if rotations { r.below(3) as u8 } else { 0 };
     let mut ops = vec![];
     for _ in 0..n {
         let k = r.range(0, nks - 1);
@@ -47,6 +65,12 @@ pub fn gen_with(seed: u64, rotations: bool) -> Workload {
             0..=4 => WOp::Insert(k, key(&mut r), val(&mut r)),
             5 => WOp::Remove(k, key(&mut r)),
             6 => WOp::Clear(k),
+            7 | 8 if flavour != 0 && r.chance(1, 2) => {
+                let mut m = std::collections::BTreeMap::new();
+                for _ in 0..r.range(1, 4) { m.insert(key(&mut r), if r.chance(4, 5) { Some(val(&mut r)) } else { None }); }
+                let dur = match r.below(4) { 0 => None, _ => Some(mode(&mut r)) };
+                WOp::Tx(dur, k, m.into_iter().collect())
+            }
             7 | 8 => {
                 let cnt = r.range(1, 4);
                 let mut seen = std::collections::HashSet::new();
@@ -63,5 +87,5 @@ pub fn gen_with(seed: u64, rotations: bool) -> Workload {
             _ => WOp::Persist(mode(&mut r)),
         });
     }
-    Workload { manual, lz4, nks, ops }
+    Workload { manual, lz4, nks, ops, flavour }
 }
